@@ -111,6 +111,15 @@ impl TomlConverter {
 
     fn write(&self, v: &Val, w: &mut dyn Write) -> ConvertResult {
         let toml_val = self.convert_value(v)?;
+        // A toml document is a table. The serializer happily writes any
+        // other value but the result is not a toml document.
+        if !toml_val.is_table() {
+            let err = SimpleError::new(format!(
+                "Only tuples can be converted to Toml documents, got {}",
+                v.type_name()
+            ));
+            return Err(Box::new(err));
+        }
         let toml_bytes = toml::ser::to_string_pretty(&toml_val)?;
         write!(w, "{}", toml_bytes)?;
         Ok(())
